@@ -12,6 +12,7 @@ def run(tier, seed, replay=None):
     q = tier == "quick"
     plans = [
         ("enum-head-k4", ["parse", "--mode", "enum", "--family", "head", "--k", 4 if q else 5, "--pieces", 12], N),
+        ("enum-skeleton-k4", ["parse", "--mode", "enum", "--family", "skeleton", "--k", 4 if q else 5, "--pieces", 13 if q else 16], N),
         ("enum-families-k3", ["parse", "--mode", "enum", "--k", 3, "--pieces", 12 if q else 16], N),
         ("random-chunked", ["parse", "--mode", "random", "--n", 800 if q else 10000, "--maxpieces", 14, "--chunk", "some"], N),
     ]
